@@ -254,7 +254,7 @@ theorem sim_set {w : World} {j : JState} (h : RP w j) (x : Nat) (n : Int) (hx : 
     · simp only [Bool.not_eq_true] at hon
       simp only [hon, Bool.false_eq_true, if_false]
       have hcap := h0.cap
-      have hch : chunk = 32 := by decide
+      have hch : 0 < chunk := by decide
       have hlt : w.hbs.length < (if w.cap = 0 then chunk else if w.hbs.length = w.cap then w.cap + chunk else w.cap) := by
         split
         · omega
@@ -314,6 +314,8 @@ def jErr (j : JState) : JState :=
 
 theorem judge1_err (j : JState) (o : Nat) : judge1 j (.err o) = jErr j := rfl
 
+theorem judge1_errR (j : JState) : judge1 j .errR = jErr j := rfl
+
 theorem sim_err1 {w : World} {j : JState} (h : RP w j) :
     R0 (errorHandler w) (jErr1 j) ∧ Frame j (jErr1 j) := by
   cases hc : w.cur with
@@ -333,7 +335,7 @@ theorem sim_err1 {w : World} {j : JState} (h : RP w j) :
     exact ⟨⟨h0.hbs, h0.known, h0.nofn, h0.dead, h0.flag, rfl, h0.ok, h0.cap, h0.sub⟩, ⟨hf.bad, hf.inRound, hf.expect, hf.pend⟩⟩
 
 /-- error_handler: exactly the running object's heart beat is switched off -/
-theorem sim_err {w : World} {j : JState} (h : RP w j) :
+theorem sim_err0 {w : World} {j : JState} (h : RP w j) :
     R0 (errorHandler w) (jErr j) ∧ (jErr j).bad = j.bad ∧ (jErr j).inRound = j.inRound ∧
     (jErr j).expect = (if j.inRound then .abort else j.expect) ∧ (jErr j).cur = none := by
   obtain ⟨h0, hf⟩ := sim_err1 h
@@ -354,10 +356,17 @@ theorem sim_err {w : World} {j : JState} (h : RP w j) :
     rw [e]
     exact ⟨h0, hf.bad, hr1, hf.expect, hcn⟩
 
+/-- error_handler from its first statement (restrict_destruct reset, then the switch-off) -/
+theorem sim_err {w : World} {j : JState} (h : RP w j) :
+    R0 (errorEntry w) (jErr j) ∧ (jErr j).bad = j.bad ∧ (jErr j).inRound = j.inRound ∧
+    (jErr j).expect = (if j.inRound then .abort else j.expect) ∧ (jErr j).cur = none :=
+  sim_err0 (w := { w with restrict := none })
+    ⟨⟨h.1.hbs, h.1.known, h.1.nofn, h.1.dead, h.1.flag, h.1.cur, h.1.ok, h.1.cap, h.1.sub⟩, h.2⟩
+
 /-- what `sim_stepOp` / `sim_runOps` conclude -/
 def StepOK (w : World) (j : JState) (r : World × List Ev × Status) : Prop :=
   if r.2.2 = .err then
-    R0 (errorHandler r.1) (r.2.1.foldl judge1 j) ∧ (r.2.1.foldl judge1 j).bad = j.bad ∧
+    R0 (errorEntry r.1) (r.2.1.foldl judge1 j) ∧ (r.2.1.foldl judge1 j).bad = j.bad ∧
       (r.2.1.foldl judge1 j).inRound = j.inRound ∧
       (r.2.1.foldl judge1 j).expect = (if j.inRound then .abort else j.expect) ∧
       (r.2.1.foldl judge1 j).cur = none
@@ -446,8 +455,15 @@ theorem sim_stepOpBasic {w : World} {j : JState} (h : RP w j) (ha : opAllowed j 
         simp only [stepOpBasic]; rw [if_pos hc]
       rw [hst]
       exact stepOK_one (by decide) (by simp only [judge1]; rw [if_neg (by rw [hc']; decide)]) h (Frame.refl j)
-    · have hst : stepOpBasic w self (.dest t) = (destructLeaf w t, [.dest self t], if (destructLeaf w t).alive self then .ok else .stop) := by
-        simp only [stepOpBasic]; rw [if_neg hc]
+    · by_cases hrs : restricted w t = true
+      · have hst : stepOpBasic w self (.dest t) = (w, [.errR], .err) := by
+          simp only [stepOpBasic]; rw [if_neg hc, if_pos hrs]
+        rw [hst]
+        unfold StepOK
+        simp only [List.foldl, judge1_errR, if_true]
+        exact sim_err h
+      have hst : stepOpBasic w self (.dest t) = (destructLeaf w t, [.dest self t], if (destructLeaf w t).alive self then .ok else .stop) := by
+        simp only [stepOpBasic]; rw [if_neg hc, if_neg hrs]
       simp only [Bool.not_eq_true] at hc
       have hat : w.alive t = true := by cases hx : w.alive t <;> simp_all
       have ht2 : decide (t < 2) = false := by cases hy : decide (t < 2) <;> simp_all
@@ -531,6 +547,12 @@ theorem sim_stepOpBasic {w : World} {j : JState} (h : RP w j) (ha : opAllowed j 
     rw [hst]
     exact stepOK_one (by decide) (by simp [judge1]) h (Frame.refl j)
   | take i =>
+    simp only [stepOpBasic]
+    split
+    · exact stepOK_one (by decide) rfl
+        ⟨⟨h.1.hbs, h.1.known, h.1.nofn, h.1.dead, h.1.flag, h.1.cur, h.1.ok, h.1.cap, h.1.sub⟩, h.2⟩ (Frame.refl j)
+    · exact stepOK_one (by decide) rfl h (Frame.refl j)
+  | mv x =>
     simp only [stepOpBasic]
     split
     · exact stepOK_one (by decide) rfl
@@ -644,11 +666,56 @@ theorem sim_hookStep {j : JState} (ha : opAllowed j = true) (carrier : Nat) (acc
     split
     · exact h
     · have ha0 := opAllowed_frame hF ha
-      have hs := sim_runOpsBasic i ((acc.1.hooks i).filter hookAllowed) acc.1 (acc.2.1.foldl judge1 j) hR ha0
+      have hRr : RP { acc.1 with restrict := some i } (acc.2.1.foldl judge1 j) :=
+        ⟨⟨hR.1.hbs, hR.1.known, hR.1.nofn, hR.1.dead, hR.1.flag, hR.1.cur, hR.1.ok, hR.1.cap, hR.1.sub⟩, hR.2⟩
+      have hs := sim_runOpsBasic i ((acc.1.hooks i).filter hookAllowed) { acc.1 with restrict := some i }
+        (acc.2.1.foldl judge1 j) hRr ha0
       have hjh : judge1 (acc.2.1.foldl judge1 j) (.hook i carrier) = acc.2.1.foldl judge1 j := by
         simp [judge1, ha0]
-      rcases hr : runOpsBasic acc.1 i ((acc.1.hooks i).filter hookAllowed) with ⟨w1, e1, st⟩
+      rcases hr : runOpsBasic { acc.1 with restrict := some i } i ((acc.1.hooks i).filter hookAllowed) with ⟨w1, e1, st⟩
       rw [hr] at hs
+      have key : st ≠ .err → HooksOK j
+          (if !w1.alive i then ({ w1 with restrict := none }, acc.2.1 ++ .hook i carrier :: e1 ++ [.hookGone i], Status.ok)
+           else if (itemsOf w1 carrier).contains i then
+             (destructLeaf { w1 with restrict := none } i, acc.2.1 ++ .hook i carrier :: e1 ++ [.hookEnd i], Status.ok)
+           else ({ w1 with restrict := none }, acc.2.1 ++ .hook i carrier :: e1 ++ [.hookMoved i], Status.ok)) := by
+        intro hne
+        unfold StepOK at hs
+        simp only [hne, if_false] at hs
+        obtain ⟨hR1, hF1⟩ := hs
+        have ha1 := opAllowed_frame hF1 ha0
+        have hR1' : RP { w1 with restrict := none } (e1.foldl judge1 (acc.2.1.foldl judge1 j)) :=
+          ⟨⟨hR1.1.hbs, hR1.1.known, hR1.1.nofn, hR1.1.dead, hR1.1.flag, hR1.1.cur, hR1.1.ok, hR1.1.cap, hR1.1.sub⟩, hR1.2⟩
+        have hal := alive_eq hR1.1
+        cases hat : w1.alive i with
+        | false =>
+          have hjt : (e1.foldl judge1 (acc.2.1.foldl judge1 j)).alive i = false := by rw [← hal, hat]
+          simp only [Bool.not_false, if_true]
+          unfold HooksOK StepOK
+          simp only [reduceCtorEq, if_false, List.foldl_append, List.foldl_cons, List.foldl_nil, hjh]
+          have hje : judge1 (e1.foldl judge1 (acc.2.1.foldl judge1 j)) (.hookGone i) = e1.foldl judge1 (acc.2.1.foldl judge1 j) := by
+            simp [judge1, hjt]
+          rw [hje]
+          exact ⟨hR1', Frame.trans hF hF1⟩
+        | true =>
+          have hjt : (e1.foldl judge1 (acc.2.1.foldl judge1 j)).alive i = true := by rw [← hal, hat]
+          simp only [Bool.not_true, Bool.false_eq_true, if_false]
+          split
+          · have hat' : ({ w1 with restrict := none } : World).alive i = true := hat
+            obtain ⟨hR2, hF2⟩ := sim_destLeaf hR1' i hat'
+            unfold HooksOK StepOK
+            simp only [reduceCtorEq, if_false, List.foldl_append, List.foldl_cons, List.foldl_nil, hjh]
+            have hje : judge1 (e1.foldl judge1 (acc.2.1.foldl judge1 j)) (.hookEnd i) =
+                { jDisable (e1.foldl judge1 (acc.2.1.foldl judge1 j)) i with dead := i :: (e1.foldl judge1 (acc.2.1.foldl judge1 j)).dead } := by
+              simp [judge1, ha1, hjt]
+            rw [hje]
+            exact ⟨hR2, Frame.trans hF (Frame.trans hF1 hF2)⟩
+          · unfold HooksOK StepOK
+            simp only [reduceCtorEq, if_false, List.foldl_append, List.foldl_cons, List.foldl_nil, hjh]
+            have hje : judge1 (e1.foldl judge1 (acc.2.1.foldl judge1 j)) (.hookMoved i) = e1.foldl judge1 (acc.2.1.foldl judge1 j) := by
+              simp [judge1, hjt]
+            rw [hje]
+            exact ⟨hR1', Frame.trans hF hF1⟩
       cases st with
       | err =>
         unfold StepOK at hs
@@ -659,58 +726,8 @@ theorem sim_hookStep {j : JState} (ha : opAllowed j = true) (carrier : Nat) (acc
         simp only [if_true, List.foldl_append, List.foldl_cons, hjh]
         refine ⟨a, b.trans hF.bad, c.trans hF.inRound, ?_, e⟩
         rw [d, hF.inRound, hF.expect]
-      | ok =>
-        unfold StepOK at hs
-        simp only [reduceCtorEq, if_false] at hs
-        obtain ⟨hR1, hF1⟩ := hs
-        have ha1 := opAllowed_frame hF1 ha0
-        have hal := alive_eq hR1.1
-        dsimp only
-        cases hat : w1.alive i with
-        | true =>
-          have hjt : (e1.foldl judge1 (acc.2.1.foldl judge1 j)).alive i = true := by rw [← hal, hat]
-          obtain ⟨hR2, hF2⟩ := sim_destLeaf hR1 i hat
-          unfold HooksOK StepOK
-          simp only [if_true, reduceCtorEq, if_false, List.foldl_append, List.foldl_cons, List.foldl_nil, hjh]
-          have hje : judge1 (e1.foldl judge1 (acc.2.1.foldl judge1 j)) (.hookEnd i) =
-              { jDisable (e1.foldl judge1 (acc.2.1.foldl judge1 j)) i with dead := i :: (e1.foldl judge1 (acc.2.1.foldl judge1 j)).dead } := by
-            simp [judge1, ha1, hjt]
-          rw [hje]
-          exact ⟨hR2, Frame.trans hF (Frame.trans hF1 hF2)⟩
-        | false =>
-          have hjt : (e1.foldl judge1 (acc.2.1.foldl judge1 j)).alive i = false := by rw [← hal, hat]
-          unfold HooksOK StepOK
-          simp only [Bool.false_eq_true, reduceCtorEq, if_false, List.foldl_append, List.foldl_cons, List.foldl_nil, hjh]
-          have hje : judge1 (e1.foldl judge1 (acc.2.1.foldl judge1 j)) (.hookGone i) = e1.foldl judge1 (acc.2.1.foldl judge1 j) := by
-            simp [judge1, hjt]
-          rw [hje]
-          exact ⟨hR1, Frame.trans hF hF1⟩
-      | stop =>
-        unfold StepOK at hs
-        simp only [reduceCtorEq, if_false] at hs
-        obtain ⟨hR1, hF1⟩ := hs
-        have ha1 := opAllowed_frame hF1 ha0
-        have hal := alive_eq hR1.1
-        dsimp only
-        cases hat : w1.alive i with
-        | true =>
-          have hjt : (e1.foldl judge1 (acc.2.1.foldl judge1 j)).alive i = true := by rw [← hal, hat]
-          obtain ⟨hR2, hF2⟩ := sim_destLeaf hR1 i hat
-          unfold HooksOK StepOK
-          simp only [if_true, reduceCtorEq, if_false, List.foldl_append, List.foldl_cons, List.foldl_nil, hjh]
-          have hje : judge1 (e1.foldl judge1 (acc.2.1.foldl judge1 j)) (.hookEnd i) =
-              { jDisable (e1.foldl judge1 (acc.2.1.foldl judge1 j)) i with dead := i :: (e1.foldl judge1 (acc.2.1.foldl judge1 j)).dead } := by
-            simp [judge1, ha1, hjt]
-          rw [hje]
-          exact ⟨hR2, Frame.trans hF (Frame.trans hF1 hF2)⟩
-        | false =>
-          have hjt : (e1.foldl judge1 (acc.2.1.foldl judge1 j)).alive i = false := by rw [← hal, hat]
-          unfold HooksOK StepOK
-          simp only [Bool.false_eq_true, reduceCtorEq, if_false, List.foldl_append, List.foldl_cons, List.foldl_nil, hjh]
-          have hje : judge1 (e1.foldl judge1 (acc.2.1.foldl judge1 j)) (.hookGone i) = e1.foldl judge1 (acc.2.1.foldl judge1 j) := by
-            simp [judge1, hjt]
-          rw [hje]
-          exact ⟨hR1, Frame.trans hF hF1⟩
+      | ok => exact key (by decide)
+      | stop => exact key (by decide)
 
 theorem sim_hooksFold {j : JState} (ha : opAllowed j = true) (carrier : Nat) : ∀ (items : List Nat) (acc : World × List Ev × Status),
     HooksOK j acc → HooksOK j (items.foldl (hookStep carrier) acc) := by
@@ -736,12 +753,19 @@ theorem sim_stepOp {w : World} {j : JState} (h : RP w j) (ha : opAllowed j = tru
         simp only [stepOp]; rw [if_pos hc]
       rw [hst]
       exact stepOK_one (by decide) (by simp only [judge1]; rw [if_neg (by rw [hc']; decide)]) h (Frame.refl j)
-    · have ht2 : decide (t < 2) = false := by
+    · by_cases hrs : restricted w t = true
+      · have hst : stepOp w self (.dest t) = (w, [.errR], .err) := by
+          simp only [stepOp]; rw [if_neg hc, if_pos hrs]
+        rw [hst]
+        unfold StepOK
+        simp only [List.foldl, judge1_errR, if_true]
+        exact sim_err h
+      have ht2 : decide (t < 2) = false := by
         simp only [Bool.not_eq_true] at hc
         cases hy : decide (t < 2) <;> simp_all
       have hH := sim_hooksPhase h ha t
       simp only [stepOp]
-      rw [if_neg hc, destructFull_ref]
+      rw [if_neg hc, if_neg hrs, destructFull_ref]
       rcases hh : hooksPhase w t with ⟨w1, e1, st1⟩
       rw [hh] at hH
       dsimp only
@@ -786,6 +810,7 @@ theorem sim_stepOp {w : World} {j : JState} (h : RP w j) (ha : opAllowed j = tru
   | hbs => exact sim_stepOpBasic h ha self _
   | take i => exact sim_stepOpBasic h ha self _
   | cerr => exact sim_stepOpBasic h ha self _
+  | mv x => exact sim_stepOpBasic h ha self _
   | reload t n => exact sim_stepOpBasic h ha self _
   | living => exact sim_stepOpBasic h ha self _
   | burn => exact sim_stepOpBasic h ha self _
@@ -969,7 +994,9 @@ theorem sim_roundRef (sc : Scripts) : ∀ (fuel : Nat) (w : World) (j : JState),
               obtain ⟨a, b, c, d, e⟩ := hops
               dsimp only
               simp only [List.foldl_cons, List.foldl_append, List.foldl_nil, hj2, hjc]
-              have hd := done_abort a (by rw [d]; simp [j2, hin]) e
+              have a' : R0 { errorEntry w2 with cg := none } (evs.foldl judge1 j2) :=
+                ⟨a.hbs, a.known, a.nofn, a.dead, a.flag, a.cur, a.ok, a.cap, a.sub⟩
+              have hd := done_abort a' (by rw [d]; simp [j2, hin]) e
               exact ⟨hd.1, hd.2.1.trans b, hd.2.2.1, hd.2.2.2⟩
             | _ =>
               simp only [reduceCtorEq, if_false] at hops
@@ -1155,22 +1182,160 @@ theorem sim_rpFold {j0 : JState} : ∀ (l : List Nat) (acc : World × List Ev), 
   | nil => intro acc h; exact h
   | cons o r ih => intro acc h; exact ih _ (sim_rpStep acc h o)
 
-/-- one pass of the backend loop: pending program replacements, then call_heart_beat -/
+theorem sim_applyRp {w : World} {j : JState} (h : Idle w j) : Idle (applyRp w).1 ((applyRp w).2.foldl judge1 j) := by
+  unfold applyRp
+  apply sim_rpFold
+  obtain ⟨h0, hin, hex, hbad⟩ := h
+  exact ⟨⟨h0.hbs, h0.known, h0.nofn, h0.dead, h0.flag, h0.cur, h0.ok, h0.cap, h0.sub⟩, hin, hex, hbad⟩
+
+/-! command_giver after a pass of the loop -/
+
+theorem roundRef_cg (sc : Scripts) : ∀ (fuel : Nat) (w : World), w.cg = none → (roundRef sc fuel w).1.cg = none := by
+  intro fuel
+  induction fuel with
+  | zero => intro w h; exact h
+  | succ f ih =>
+    intro w h
+    unfold roundRef
+    by_cases hneg : w.idx < 0
+    · rw [if_pos hneg]; exact h
+    · rw [if_neg hneg]
+      cases hget : w.hbs[w.idx.toNat]? with
+      | none => exact h
+      | some hb =>
+        dsimp only
+        by_cases hf : (!w.nofn.contains hb.ob && decide (wrap16 (hb.ticks - 1) < 1)) = true
+        · rw [if_pos hf]
+          rcases hr : runOps _ hb.ob (sc hb.ob (w.nb hb.ob)) with ⟨w2, evs, st⟩
+          cases st with
+          | err => rfl
+          | ok =>
+            dsimp only
+            split
+            · rw [finish_ref]
+            · exact ih _ rfl
+          | stop =>
+            dsimp only
+            split
+            · rw [finish_ref]
+            · exact ih _ rfl
+        · rw [if_neg hf]
+          split
+          · rw [finish_ref]; exact h
+          · exact ih _ h
+
+theorem tickCore_cg (sc : Scripts) (w : World) (h : w.cg = none) : (tickCore sc w).1.cg = none := by
+  rw [tick_eq_ref]
+  unfold tickRef
+  split
+  · split
+    · rw [round_eq_ref]
+      exact roundRef_cg sc _ _ h
+    · exact h
+  · exact h
+
+theorem rpStep_cg (acc : World × List Ev) (o : Nat) : (rpStep acc o).1.cg = acc.1.cg := by
+  unfold rpStep; split <;> rfl
+
+theorem applyRp_cg (w : World) : (applyRp w).1.cg = w.cg := by
+  unfold applyRp
+  have : ∀ (l : List Nat) (acc : World × List Ev), (l.foldl rpStep acc).1.cg = acc.1.cg := by
+    intro l
+    induction l with
+    | nil => intro acc; rfl
+    | cons o r ih => intro acc; rw [List.foldl_cons, ih, rpStep_cg]
+  exact this _ _
+
+/-- **no heart_beat object stays behind as command_giver**: after a pass of the backend loop command_giver is 0, whether
+    the round completed, was truncated, abandoned by an error, or never started -/
+theorem morePasses_cg (sc : Scripts) : ∀ (fuel : Nat) (w : World), w.cg = none → (morePasses sc fuel w).1.cg = none := by
+  intro fuel
+  induction fuel with
+  | zero =>
+    intro w h
+    unfold morePasses
+    dsimp only
+    split
+    · exact (applyRp_cg w).trans h
+    · exact (applyRp_cg w).trans h
+  | succ f ih =>
+    intro w h
+    have c1 : (applyRp w).1.cg = none := (applyRp_cg w).trans h
+    have c2 := tickCore_cg sc _ c1
+    unfold morePasses
+    dsimp only
+    split
+    · split
+      · exact ih _ c2
+      · exact c2
+    · exact c1
+
+theorem sim_morePasses (sc : Scripts) : ∀ (fuel : Nat) (w : World) (j : JState), Idle w j →
+    Idle (morePasses sc fuel w).1 ((morePasses sc fuel w).2.foldl judge1 j) := by
+  intro fuel
+  induction fuel with
+  | zero =>
+    intro w j h
+    have i1 := sim_applyRp h
+    unfold morePasses
+    dsimp only
+    split
+    · obtain ⟨h0, hin, hex, hbad⟩ := i1
+      simp only [List.foldl_append, List.foldl_cons, List.foldl_nil]
+      have hj : judge1 ((applyRp w).2.foldl judge1 j) .passLimit = { (applyRp w).2.foldl judge1 j with trunc := false } := by
+        simp [judge1, hex]
+      rw [hj]
+      exact ⟨⟨h0.hbs, h0.known, h0.nofn, h0.dead, rfl, h0.cur, h0.ok, h0.cap, h0.sub⟩, hin, hex, hbad⟩
+    · exact i1
+  | succ f ih =>
+    intro w j h
+    have i1 := sim_applyRp h
+    have i2 := sim_tickCore sc i1
+    unfold morePasses
+    dsimp only
+    split
+    · split
+      · have i3 := ih _ _ i2
+        simp only [List.foldl_append]
+        exact i3
+      · simp only [List.foldl_append]
+        exact i2
+    · exact i1
+
+theorem tick_cg_none (sc : Scripts) (w : World) : (tick sc w).1.cg = none := by
+  have c0 := tickCore_cg sc { w with cg := none, tflags := 0 } rfl
+  have c1 : (applyRp { (tickCore sc { w with cg := none, tflags := 0 }).1 with tflags := w.tflags }).1.cg = none :=
+    (applyRp_cg _).trans c0
+  have c2 := tickCore_cg sc _ c1
+  unfold tick
+  dsimp only
+  split
+  · exact morePasses_cg sc _ _ c2
+  · exact c2
+
+/-- one `tick` command: backend() entered (start-up call), pending program replacements, call_heart_beat, and the further
+    passes after an error -/
 theorem sim_tick (sc : Scripts) {w : World} {j : JState} (h : Idle w j) :
     Idle (tick sc w).1 ((tick sc w).2.foldl judge1 j) := by
-  have h1 : Idle (applyRp w).1 ((applyRp w).2.foldl judge1 j) := by
-    unfold applyRp
-    apply sim_rpFold
+  have hcg := tick_cg_none sc w
+  have hs : Idle { w with cg := none, tflags := 0 } j := by
     obtain ⟨h0, hin, hex, hbad⟩ := h
     exact ⟨⟨h0.hbs, h0.known, h0.nofn, h0.dead, h0.flag, h0.cur, h0.ok, h0.cap, h0.sub⟩, hin, hex, hbad⟩
-  unfold tick
-  cases hr : applyRp w with
-  | mk w1 e1 =>
-    rw [hr] at h1
-    have h2 := sim_tickCore sc h1
-    dsimp only
-    rw [List.foldl_append]
-    exact h2
+  have i0 := sim_tickCore sc hs
+  have i0' : Idle { (tickCore sc { w with cg := none, tflags := 0 }).1 with tflags := w.tflags }
+      ((tickCore sc { w with cg := none, tflags := 0 }).2.foldl judge1 j) := by
+    obtain ⟨h0', hin, hex, hbad⟩ := i0
+    exact ⟨⟨h0'.hbs, h0'.known, h0'.nofn, h0'.dead, h0'.flag, h0'.cur, h0'.ok, h0'.cap, h0'.sub⟩, hin, hex, hbad⟩
+  have i1 := sim_applyRp i0'
+  have i2 := sim_tickCore sc i1
+  unfold tick at hcg ⊢
+  dsimp only at hcg ⊢
+  simp only [List.foldl_append, List.foldl_cons, List.foldl_nil]
+  rw [hcg]
+  show Idle _ (List.foldl judge1 _ _)
+  split
+  · exact sim_morePasses sc _ _ _ i2
+  · exact i2
 
 /-- one top-level command -/
 theorem sim_stepCmd (sc : Scripts) {w : World} {j : JState} (h : Idle w j) (c : Cmd) :
